@@ -4,6 +4,7 @@ import TantivyModel.Proofs.DocSet.ReqOpt
 import TantivyModel.Proofs.DocSet.Exclude
 import TantivyModel.Proofs.DocSet.SimpleUnion
 import TantivyModel.Proofs.DocSet.Intersection
+import TantivyModel.Proofs.DocSet.BufferedUnion
 import TantivyModel.Model.DocSet.Tree
 /-!
 # C13 — every DocSet is one sorted sequence under any mix of advance and seek
@@ -200,6 +201,34 @@ theorem C13_intersection_order_irrelevant (ll lr : List Nat) (los los' : List (L
     constructor
     · rintro ⟨a, b, c⟩; exact ⟨a, b, fun lo hlo => c lo ((hperm lo).mpr hlo)⟩
     · rintro ⟨a, b, c⟩; exact ⟨a, b, fun lo hlo => c lo ((hperm lo).mp hlo)⟩
+
+/-- BufferedUnionScorer, parametric in the horizon `H` (any positive multiple of 64): the invariant
+"the window holds exactly the not yet consumed members of the children inside
+[window_start, window_start + H), every child is positioned at or beyond the horizon" is preserved by
+`advance` (pop the smallest buffered delta; on an empty window `refill` moves the window to the
+smallest child document and drains every child below the new horizon), and the abstraction commutes:
+the remaining sequence loses exactly its head. Children abstract (lawful, `score` preserving their
+abstraction). `_partial`: `advance`/`doc` only — `seek`, `seek_danger`, `fill_buffer`,
+`count_including_deleted` and `build` are open (plan in the comment below); findings 5 and 9 live
+in `seek_danger`/`seek`, finding 3 in `count`. -/
+theorem C13_union_advance_refines_partial (hA : Lawful A VA WA)
+    (hscore : ∀ {c l}, VA c l → VA (A.score c).2 l) (H : Nat) (hH : 64 ∣ H) (hH0 : 0 < H)
+    (s : BUnion.State σ) (l : List Nat) (hV : BUnion.V VA H s l) :
+    BUnion.V VA H (BUnion.advance A H s) (Spec.advance l)
+      ∧ (BUnion.advance A H s).doc = Spec.doc (Spec.advance l) :=
+  ⟨BUnion.advance_law hA hscore hH hH0 hV,
+    (BUnion.core0 hA hscore hH hH0).doc_eq (BUnion.advance_law hA hscore hH hH0 hV)⟩
+
+theorem C13_union_advance_program_equiv_partial (hA : Lawful A VA WA)
+    (hscore : ∀ {c l}, VA c l → VA (A.score c).2 l) (H : Nat) (hH : 64 ∣ H) (hH0 : 0 < H)
+    (fx : Fix) (s : BUnion.State σ) (l : List Nat) (hV : BUnion.V VA H s l) (prog : List Op)
+    (hp : advOnly prog = true) :
+    implRun (BUnion.ds A H fx) s prog = specRun ⟨l, none⟩ prog :=
+  core0_program_equiv (BUnion.ds A H fx) (BUnion.V VA H) (BUnion.core0 hA hscore hH hH0) prog s l hV hp
+
+/-- the extracted horizon satisfies the side conditions -/
+theorem C13_union_horizon_ok : 64 ∣ Gen.UNION_HORIZON ∧ 0 < Gen.UNION_HORIZON
+    ∧ Gen.UNION_HORIZON / 64 = Gen.UNION_HORIZON_NUM_TINYBITSETS := by decide
 
 /-- score path independence of RequiredOptionalScorer (SumCombiner): with an empty cache (every
 move empties it) the score at the current document `d` is `score_req(d) + [d ∈ opt] score_opt(d)`,
